@@ -28,7 +28,8 @@ PART_FAMS = {
 
 TIERS = {
     # groups: groups of three runs per harness part (4 parts); per_chunk: groups per TLC process
-    "quick": dict(groups=16, per_chunk=4, timeout=600),
+    # (part 0, the linear families, gets 24 groups in the quick tier: half of its runs are zero-coordinate starts)
+    "quick": dict(groups=16, groups_part={0: 24}, per_chunk=4, timeout=600),
     "thorough": dict(groups=450, per_chunk=30, timeout=2400),
 }
 
@@ -89,6 +90,13 @@ def required_cells(tier):
     for ws in ("1.000000e+00", "1.000000e-02", "1.000000e-03", "1.000000e-04"):
         req += [f"minimiser-w|{ws}|sparseJ", f"minimiser-w|{ws}|denseJ"]
     req += ["w|1.000000e-06", "w|1.000000e-08"]
+    # starting points of vector arguments: the origin and exactly one zero coordinate, differentiated numerically
+    # (explicitly and through Default), for a dense and a sparse problem, and judged by the minimiser clause
+    for st in ("origin", "onezero"):
+        for mode in ("num", "def"):
+            req += [f"start|{st}|{mode}|numdiff=1|dense", f"start|{st}|{mode}|numdiff=1|sparse"]
+        req.append(f"minimiser-start|{st}|numdiff=1")
+    req += ["start|generic", "start|at-min", "minimiser-start|generic|numdiff=1", "minimiser-start|generic|numdiff=0"]
     if tier == "thorough":
         req += ["iter|ceres|accepted:pred_red<=0", "iter|disney|accepted:pred_red<=0", "iter|ceres|rejected:actu_red<0",
                 "iter|disney|rejected:actu_red<0", "exit|0|at-max_iter", "exit|1|at-max_iter", "pred_red|<0"]
@@ -239,6 +247,7 @@ def validate(oc, traces, per_chunk, workdir, timeout):
                     ratio = V.dequad(begin["ptol"]) / w
                     b2.update({"fam": begin["fam"], "mode": begin["mode"], "shape": begin["shape"], "strat": begin["strat"],
                                "shared": 0 if begin["fresh"] else 1, "max_iter": begin["max_iter"], "w": w,
+                               "start": begin.get("start"), "numdiff": begin.get("numdiff"),
                                "ptol": V.dequad(begin["ptol"]),
                                # the Ptol test is not invariant to the units of f: ptol / w is what it sees
                                "wclass": "ptol/w>=0.1" if ratio >= 0.0999 else "ptol/w<=1e-2"})
@@ -309,8 +318,9 @@ def check(prop, tier, seed, replay=None):
                 fut = ex.submit(run_models, oc, tier, workdir)
                 for p in PARTS:
                     out = os.path.join(workdir, f"part{p}.ndjson")
-                    run_harness(exes[p], ["--tier", tier, "--seed", str(seed), "--groups", str(cfg["groups"])], out)
-                    traces.append((out, {"part": p, "seed": seed, "groups": cfg["groups"], "tier": tier}))
+                    ng = cfg.get("groups_part", {}).get(p, cfg["groups"])
+                    run_harness(exes[p], ["--tier", tier, "--seed", str(seed), "--groups", str(ng)], out)
+                    traces.append((out, {"part": p, "seed": seed, "groups": ng, "tier": tier}))
                 # witnesses of open known findings (explicit groups, re-run on every check)
                 for i, ent in enumerate(oc.known["open"]):
                     w = ent.get("witness") or {}
